@@ -196,6 +196,19 @@ def gen_cases(cx):
         # implicit default nodes may appear anywhere below a non-presence path: any default in the schema counts
         add(yang, items, {"kind": "random", "has_default": g.has_default or " default " in yang})
 
+    # 1b. opaque nodes next to schema nodes (lyb_print_node_opaq / lyb_parse_node_opaq), also with a large value
+    for _ in range(cx.n(12, 120)):
+        mod = "opq" + ident(rng, 1, 4).replace("-", "o")
+        yang = module_text(mod, "  leaf a {type string;}\n  container c {leaf b {type uint8;}}")
+        items = []
+        if rng.random() < 0.7: items.append(("/%s:a" % mod, value_of(rng, "string")))
+        if rng.random() < 0.7: items.append(("/%s:c/b" % mod, "7"))
+        nm = ident(rng, 1, 6)
+        v = rng.choice(["", "x", "some text", (rng.choice([MAX - 20, MAX, MAX + 3, 2 * MAX]), 5)])
+        toks = spec_str(items)
+        otok = "O%s=%s" % (hexs(nm.encode()), "g%d:%d" % v if isinstance(v, tuple) else "l" + hexs(v.encode()))
+        cases.append((yang, "explicit", otok if toks == "-" else toks + "," + otok, {"kind": "opaq", "has_default": False, "wd": "explicit"}))
+
     # 2. large values around k * LYB_SIZE_MAX at nesting 1..6 (every alignment of the chunk end against the 8-byte length
     #    prefix, the next node header and the closing records is hit by a sweep of consecutive sizes)
     sweep = []
